@@ -268,6 +268,138 @@ theorem biPlanarRect_facts {e1 e2 sx sy W H y h : Nat} {ops : List Op} (he2 : 0 
   · cases hops
 
 
+/-! ### closed form of the need -/
+
+theorem lineBufLen_le (bpl lines : Nat) : lineBufLen bpl lines ≤ max TARGET_BUFFER_SIZE bpl := by
+  rcases lineBufLen_le_max bpl lines with h | h
+  · exact Nat.le_trans h (Nat.le_max_left _ _)
+  · rw [h]; exact Nat.le_max_right _ _
+
+theorem ioOnly_rectRows (gap rd : Nat) : ∀ k, ioOnly (rectRows gap rd k)
+  | 0 => trivial
+  | k + 1 => ioOnly_rectRowsRest gap rd k
+
+theorem need_pixelFull {bpp w h : Nat} (hb : 0 < bpp) (hw : 0 < w) (hh : 0 < h) :
+    need (pixelFull bpp w h) = lineBufLen (w * bpp) h := by
+  rw [pixelFull_eq hb hw hh]; simp [need, need_refills]
+
+theorem need_pixelRect {bpp W H x y w h : Nat} (hfit : W * H * bpp ≤ I64MAX) :
+    need (pixelRect bpp W H x y w h) = w * bpp := by
+  unfold pixelRect
+  simp only [if_pos hfit, List.nil_append, List.cons_append, need, need_append,
+    ioOnly_need (ioOnly_rectRows _ _ _), Nat.add_zero]
+
+theorem need_blockFull {bw bh bpb w h : Nat} (hbw : 0 < bw) (hbh : 0 < bh) (hb : 0 < bpb)
+    (hw : 0 < w) (hh : 0 < h) :
+    need (blockFull bw bh bpb w h) = lineBufLen (divCeil w bw * bpb) (divCeil h bh) := by
+  unfold blockFull
+  rw [if_neg (by omega), lineBufNew_eq (Nat.mul_pos (divCeil_pos hw hbw) hb) (divCeil_pos hh hbh)]
+  simp [need, need_refills]
+
+theorem need_blockRect {bw bh bpb W H y h : Nat} (hbw : 0 < bw) (hbh : 0 < bh) (hb : 0 < bpb)
+    (hW : 0 < W) (hh : 0 < h) :
+    need (blockRect bw bh bpb W H y h) =
+      lineBufLen (divCeil W bw * bpb) (divCeil (h + y) bh - y / bh) := by
+  have h1 : y / bh < divCeil (h + y) bh := by rw [Nat.add_comm]; exact div_lt_divCeil hbh hh
+  unfold blockRect
+  simp only
+  rw [lineBufNew_eq (Nat.mul_pos (divCeil_pos hW hbw) hb) (by omega)]
+  simp [need, need_append, need_refills]
+
+theorem need_biPlanarFull {e1 e2 sx sy w h : Nat} (he2 : 0 < e2) (hsx : 0 < sx) (hsy : 0 < sy)
+    (hw : 0 < w) (hh : 0 < h) :
+    need (biPlanarFull e1 e2 sx sy w h) =
+      lineBufLen (divCeil w sx * e2) (divCeil h sy) + w * e1 * h := by
+  unfold biPlanarFull
+  simp only
+  rw [lineBufNew_eq (Nat.mul_pos (divCeil_pos hw hsx) he2) (divCeil_pos hh hsy)]
+  simp [need, need_refills]
+
+theorem need_biPlanarRect {e1 e2 sx sy W H y h : Nat} {ops : List Op} (he2 : 0 < e2) (hsx : 0 < sx)
+    (hsy : 0 < sy) (hW : 0 < W) (hy : y + h ≤ H) (hh : 0 < h)
+    (hops : biPlanarRect e1 e2 sx sy W H y h = .ok ops) :
+    need ops = W * e1 * h + lineBufLen (divCeil W sx * e2) (divCeil (y + h) sy - y / sy) := by
+  have h1 : y / sy < divCeil (y + h) sy := div_lt_divCeil hsy hh
+  have h2 : divCeil (y + h) sy ≤ divCeil H sy := divCeil_mono hsy (by omega)
+  have hl : divCeil H sy - y / sy - (divCeil H sy - divCeil (y + h) sy) = divCeil (y + h) sy - y / sy := by
+    omega
+  unfold biPlanarRect at hops
+  simp only [hl] at hops
+  split at hops
+  · simp only [Except.ok.injEq] at hops
+    rw [lineBufNew_eq (Nat.mul_pos (divCeil_pos hW hsx) he2) (by omega)] at hops
+    subst hops
+    simp [need, need_append, need_refills]
+  · cases hops
+
+/-- the need of a call in closed form, per family -/
+def needOf (f : Fam) (c : Colour) : Call → Nat
+  | .full w h =>
+    if w = 0 ∨ h = 0 then 0 else
+    match f with
+    | .pixel bpp fast => if fast = some c then 0 else lineBufLen (w * bpp) h
+    | .block bw bh bpb => lineBufLen (divCeil w bw * bpb) (divCeil h bh)
+    | .biPlanar e1 e2 sx sy => lineBufLen (divCeil w sx * e2) (divCeil h sy) + w * e1 * h
+  | .rect W _ _ y w h =>
+    if w = 0 ∨ h = 0 then 0 else
+    match f with
+    | .pixel bpp _ => w * bpp
+    | .block bw bh bpb => lineBufLen (divCeil W bw * bpb) (divCeil (h + y) bh - y / bh)
+    | .biPlanar e1 e2 sx sy =>
+      W * e1 * h + lineBufLen (divCeil W sx * e2) (divCeil (y + h) sy - y / sy)
+
+/-- bytes of one encoded line held in the line buffer (0 if the path has no line buffer) -/
+def lineBytes (f : Fam) : Call → Nat
+  | .full w _ =>
+    match f with
+    | .pixel bpp _ => w * bpp
+    | .block bw _ bpb => divCeil w bw * bpb
+    | .biPlanar _ e2 sx _ => divCeil w sx * e2
+  | .rect W _ _ _ _ _ =>
+    match f with
+    | .pixel _ _ => 0
+    | .block bw _ bpb => divCeil W bw * bpb
+    | .biPlanar _ e2 sx _ => divCeil W sx * e2
+
+/-- the row buffer of a pixel rect / the plane-1 buffer of a bi-planar decode -/
+def rowOrPlaneBytes (f : Fam) : Call → Nat
+  | .full w h =>
+    match f with
+    | .biPlanar e1 _ _ _ => w * e1 * h
+    | _ => 0
+  | .rect W _ _ _ w h =>
+    match f with
+    | .pixel bpp _ => w * bpp
+    | .block _ _ _ => 0
+    | .biPlanar e1 _ _ _ => W * e1 * h
+
+theorem needOf_le (f : Fam) (c : Colour) (call : Call) :
+    needOf f c call ≤ max TARGET_BUFFER_SIZE (lineBytes f call) + rowOrPlaneBytes f call := by
+  cases call with
+  | full w h =>
+    simp only [needOf, lineBytes, rowOrPlaneBytes]
+    split
+    · exact Nat.zero_le _
+    · cases f with
+      | pixel bpp fast =>
+        simp only
+        split
+        · exact Nat.zero_le _
+        · exact Nat.le_trans (lineBufLen_le _ _) (Nat.le_add_right _ _)
+      | block bw bh bpb => exact Nat.le_trans (lineBufLen_le _ _) (Nat.le_add_right _ _)
+      | biPlanar e1 e2 sx sy => exact Nat.add_le_add_right (lineBufLen_le _ _) _
+  | rect W H x y w h =>
+    simp only [needOf, lineBytes, rowOrPlaneBytes]
+    split
+    · exact Nat.zero_le _
+    · cases f with
+      | pixel bpp fast => exact Nat.le_add_left _ _
+      | block bw bh bpb => exact Nat.le_trans (lineBufLen_le _ _) (Nat.le_add_right _ _)
+      | biPlanar e1 e2 sx sy =>
+        simp only
+        have := lineBufLen_le (divCeil W sx * e2) (divCeil (y + h) sy - y / sy)
+        omega
+
 /-! ### `decode` / `decode_rect` as a whole -/
 
 theorem Fam.WF.px {f : Fam} (h : f.WF) : f.px.WF := by
@@ -392,6 +524,63 @@ theorem plan_facts {f : Fam} (hf : f.WF) {c : Colour} {call : Call} {ops : List 
             simp only [Fam.px, PixelInfo.surfIdeal]
             rw [← divCeil_eq W sx b, ← divCeil_eq H sy d]
             exact biPlanarRect_facts a b d hW hin.2 hh h
+        · cases h
+
+/-- the total of the allocation requests of an accepted call is the closed form `needOf` -/
+theorem plan_need {f : Fam} (hf : f.WF) {c : Colour} {call : Call} {ops : List Op}
+    (h : plan f c call = .ok ops) : need ops = needOf f c call := by
+  have hbytes := (plan_facts hf h).2
+  cases call with
+  | full w h' =>
+    simp only [plan] at h
+    simp only [needOf]
+    split at h
+    · cases h
+    · by_cases he : w = 0 ∨ h' = 0
+      · rw [if_pos he] at h ⊢; simp only [Except.ok.injEq] at h; subst h; rfl
+      · rw [if_neg he] at h ⊢; simp only [Except.ok.injEq] at h; subst h
+        have hw : 0 < w := by omega
+        have hh : 0 < h' := by omega
+        cases f with
+        | pixel bpp fast =>
+          simp only [fullOps]
+          by_cases hfc : fast = some c
+          · rw [if_pos hfc, if_pos hfc]; simp [copyFull, need]
+          · rw [if_neg hfc, if_neg hfc]; exact need_pixelFull hf.1 hw hh
+        | block bw bh bpb =>
+          obtain ⟨a, _, b, _, d, _⟩ := hf
+          exact need_blockFull a b d hw hh
+        | biPlanar e1 e2 sx sy =>
+          obtain ⟨_, _, a, _, b, _, d, _⟩ := hf
+          exact need_biPlanarFull a b d hw hh
+  | rect W H x y w h' =>
+    simp only [plan] at h
+    simp only [needOf]
+    split at h
+    · cases h
+    · by_cases he : w = 0 ∨ h' = 0
+      · rw [if_pos he] at h ⊢
+        split at h
+        · simp only [Except.ok.injEq] at h; subst h; rfl
+        · cases h
+      · rw [if_neg he] at h ⊢
+        split at h
+        · rename_i hin
+          have hh : 0 < h' := by omega
+          have hW : 0 < W := by omega
+          cases f with
+          | pixel bpp fast =>
+            simp only [rectOps, Except.ok.injEq] at h; subst h
+            simp only [Call.bytes, Call.surface, Fam.px, PixelInfo.surfIdeal] at hbytes
+            exact need_pixelRect (by rw [← ISIZE_MAX_eq]; exact hbytes)
+          | block bw bh bpb =>
+            obtain ⟨a, _, b, _, d, _⟩ := hf
+            simp only [rectOps, Except.ok.injEq] at h; subst h
+            exact need_blockRect a b d hW hh
+          | biPlanar e1 e2 sx sy =>
+            obtain ⟨_, _, a, _, b, _, d, _⟩ := hf
+            simp only [rectOps] at h
+            exact need_biPlanarRect a b d hW hin.2 hh h
         · cases h
 
 /-- the only errors returned before the first operation -/
